@@ -71,7 +71,14 @@ OPS = (("compile", "f"), ("compile", "g"), ("check", "f"), ("check", "g"),
        ("rebind-compile", "f"))
 LABELS_QUICK = ("f0", "f1", "g1", "g2")
 LABELS_FULL = ("f0", "f1", "f2", "f3", "g0", "g1", "g2", "g3")
-KINDS = ("py", "typeerror", "linear", "leak")
+KINDS = ("py", "typeerror", "linear", "leak",
+         # the trace is aborted by an exception that is NOT an `Exception` (Ctrl-C in a notebook session that survives it)
+         "interrupt",
+         # not faults but NESTED compilations: at the label the body compiles another comptime function - of a second
+         # module that binds the same names (nest-other), or of this module (nest-same) - while its own trace is open
+         "nest-other", "nest-same")
+KINDS_THOROUGH = ("sysexit", "genexit")
+ONCE_ONLY = ("nest-other", "nest-same")
 MODES = ("once", "always")
 
 
@@ -116,6 +123,16 @@ def seam(label: str) -> bool:
     _S["fired"] += 1
     if f["kind"] == "py":
         raise RuntimeError(f"seam fault at {label}")
+    if f["kind"] in ("interrupt", "sysexit", "genexit"):
+        raise {"interrupt": KeyboardInterrupt, "sysexit": SystemExit, "genexit": GeneratorExit}[f["kind"]](f"seam fault at {label}")
+    if f["kind"] == "nest-other":
+        _M["hsnap"]["h2"].compile_function()
+        _S["nested"] = _S.get("nested", 0) + 1
+        return False
+    if f["kind"] == "nest-same":
+        _M["snap"]["k"].compile_function()
+        _S["nested"] = _S.get("nested", 0) + 1
+        return False
     return True
 
 
@@ -148,6 +165,10 @@ def gen_source(variant, fault) -> str:
         f"    {r_body}",
         "",
         "@guppy.comptime",
+        "def k(x: int) -> int:",
+        "    return int(x) + len([1, 2]) + int(float(x))",
+        "",
+        "@guppy.comptime",
         "def f(x: int, a: array[int, 3]) -> int:",
         f"    if seam('f0'): {bad}",
         "    y = int(x)",
@@ -177,6 +198,17 @@ def gen_source(variant, fault) -> str:
     return "\n".join(lines)
 
 
+def gen_helper_source(variant) -> str:
+    """A second module with the same user bindings and one comptime function (compiled from inside traces)."""
+    from vlib import gload
+    lines = [gload.PRELUDE.rstrip("\n"),
+             "from checks.c23 import MARK_INT, MARK_FLOAT, MARK_LEN, FALSY_INT, FALSY_FLOAT, FALSY_LEN"]
+    for name in variant:
+        lines.append(f"{name[:-1]} = FALSY_{name[:-1].upper()}" if name.endswith("!") else f"{name} = MARK_{name.upper()}")
+    lines += ["@guppy.comptime", "def h2(x: int) -> int:", "    return int(x) + len([1, 2]) + int(float(x))", ""]
+    return "\n".join(lines)
+
+
 def variants():
     out = [()]
     for k in range(1, len(SHADOWED) + 1):
@@ -193,8 +225,10 @@ def faults(quick: bool = False):
     before and after the nested comptime call); thorough: all 8."""
     out = [None, {"kind": "rcheck", "label": None, "mode": "always"}]
     for lab in (LABELS_QUICK if quick else LABELS_FULL):
-        for kind in KINDS:
+        for kind in (KINDS if quick else KINDS + KINDS_THOROUGH):
             for mode in MODES:
+                if kind in ONCE_ONLY and mode != "once":
+                    continue
                 out.append({"kind": kind, "label": lab, "mode": mode})
     for lab in ("fret", "gret"):
         for mode in MODES:
@@ -227,7 +261,7 @@ def hist_str(h) -> str:
 
 
 # ---------------------------------------------------------------- in-image state
-_M = {"mod": None, "snap": None, "order": None, "bsnap": None}
+_M = {"mod": None, "snap": None, "order": None, "bsnap": None, "hmod": None, "hsnap": None}
 
 
 def _shadow_names_in_repo() -> list[str]:
@@ -272,6 +306,9 @@ def init(root) -> None:
     _S.update(fault=fault, fired=0, calls=0, mock_seen=0, mock_missing=0)
     mod = gload.load(gen_source(variant, fault), name=root_name(root))
     _M["mod"] = mod
+    hmod = gload.load(gen_helper_source(variant), name=root_name(root) + "_helper")
+    _M["hmod"] = hmod
+    _M["hsnap"] = dict(hmod.__dict__)
     _M["snap"] = dict(mod.__dict__)
     _M["order"] = list(mod.__dict__)
     _M["bsnap"] = dict(builtins.__dict__)
@@ -333,9 +370,13 @@ def step(root, hist, op) -> dict:
         out = "exc:RecursionError"
     except Exception as e:  # noqa: BLE001 - whatever the traced body raised
         out = "exc:" + type(e).__name__
+    except (KeyboardInterrupt, SystemExit, GeneratorExit) as e:
+        if "seam fault" not in str(e):
+            raise
+        out = "exc:" + type(e).__name__
     return {
         "out": out,
-        "ns": _diff(mod.__dict__, _M["snap"]),
+        "ns": _diff(mod.__dict__, _M["snap"]) + [d + ["in the second module"] for d in _diff(_M["hmod"].__dict__, _M["hsnap"])],
         "bi": _diff(builtins.__dict__, _M["bsnap"]),
         "order": list(mod.__dict__) == _M["order"],
         "calls": _S["calls"] - c0,
@@ -379,7 +420,8 @@ def run_history(item) -> list:
         return [step(root, tuple(hist[:k]), hist[k]) for k in range(len(hist))]
     finally:
         gload.unload(_M["mod"])
-        _M.update(mod=None, snap=None, order=None, bsnap=None)
+        gload.unload(_M["hmod"])
+        _M.update(mod=None, snap=None, order=None, bsnap=None, hmod=None, hsnap=None)
 
 
 def run(ctx) -> dict:
